@@ -38,7 +38,8 @@ if [ "${1:-}" != "--quick" ]; then
   (cd "$REPO" && git ls-files -z | grep -zv '^cmd/\|^benchmarks/\|^plugin/\|^docs/' | rsync -a --from0 --files-from=- "$REPO/" "$PT/otter/")
   cp -r "$VERIF/sim" "$PT/verifsim"
   (cd "$PT/otter" && printf '\nrequire verifsim v0.0.0\n\nreplace verifsim => ../verifsim\n' >> go.mod && "$VERIF/bin/simrewrite" -dir . -tests > /dev/null) || { echo "selftest: instrumenting with tests failed"; rm -rf "$SCR"; exit 2; }
-  if (cd "$PT/otter" && GOGC=off go test -vet=off -count=1 -timeout 300s ./... > "$SCR/pt.log" 2>&1); then
+  # the repository's suite has flaky tests of its own (DESIGN.md section 11): up to two attempts, as in seeded/confirm.sh
+  if (cd "$PT/otter" && { GOGC=off go test -vet=off -count=1 -timeout 300s ./... > "$SCR/pt.log" 2>&1 || GOGC=off go test -vet=off -count=1 -timeout 300s ./... > "$SCR/pt.log" 2>&1; }); then
     echo "selftest: repository test suite passes on the instrumented tree in pass-through mode"
   else
     echo "selftest: repository tests FAIL on the instrumented tree"; grep -E '^(FAIL|---|panic)' "$SCR/pt.log" | head; rc=1
